@@ -244,7 +244,7 @@ func c13One(c *Ctx, id, scen string, state, ii int, r0 *rand.Rand) {
 		cg, _ := crypto.NewSecureSessionFromSharedKey(shared)
 		sess := f.Session(addr)
 		sess.SetCryptographer(cg)
-		sess.Decrypter()
+		responseWritten(f.ctx, f.raw[addr])
 	}
 	if !prefixOK {
 		c.Violate("honest protocol prefix is rejected", id, scen, "accepted", "rejected")
